@@ -561,6 +561,8 @@ class Performance(object):
         ensure_unique_tracks: bool = True,
     ) -> None:
         self.id = id
+        # position used by __next__
+        self.iter_idx = 0
 
         if isinstance(performedparts, PerformedPart):
             self.performedparts = [performedparts]
@@ -654,8 +656,9 @@ class Performance(object):
         self.performedparts[index] = pp
 
     def __iter__(self) -> Iterator[PerformedPart]:
-        self.iter_idx = 0
-        return self
+        # an independent iterator for every loop: nested or interleaved
+        # iterations over the same performance must not share their position
+        return iter(self.performedparts)
 
     def __next__(self) -> PerformedPart:
         if self.iter_idx == len(self.performedparts):
